@@ -47,11 +47,11 @@ type Violation struct {
 }
 
 type Ctx struct {
-	ID       string
-	Tier     string
-	Seed     int64
-	Worker   int
-	NWorkers int
+	ID        string
+	Tier      string
+	Seed      int64
+	Worker    int
+	NWorkers  int
 	Replaying bool
 
 	deadline time.Time
@@ -480,7 +480,7 @@ func coordinate(ch *Check, tier string, seed int64) int {
 		cmd.Stdout = os.Stderr
 		lf, _ := os.Create(filepath.Join(tmp, fmt.Sprintf("w%d.stderr", i)))
 		cmd.Stderr = lf
-		cmd.Env = append(os.Environ(), "GOMAXPROCS=2")
+		cmd.Env = append(os.Environ(), "GOMAXPROCS=1", "GOGC=300")
 		wd := filepath.Join(tmp, fmt.Sprintf("cwd%d", i))
 		os.MkdirAll(wd, 0o755)
 		cmd.Dir = wd
